@@ -11,7 +11,8 @@ RUN_MODULE = "RunC15"
 DRIVER = "s3conf_driver.py"
 SHARD = 60
 RULE = ("one case = a history of create / hand-made recording / save (optionally interrupted after its n-th bucket "
-        "mutation) / get / get_metadata / list / close / context-exit calls on 2-4 real S3TapeCassettes (every "
+        "mutation) / get / get_metadata / list / abort_recording (of a fresh, saved, hand-made or FETCHED recording; stream "
+        "aborts + 4 fixed-aborts, one per read_only x transient combination) / close / context-exit calls on 2-4 real S3TapeCassettes (every "
         "combination of read_only, transient, key prefix from '', a, ab, a/b, a/full, non-ASCII; optional "
         "infrequent-access threshold and sampling calculator) sharing one fake bucket with foreign objects and residues "
         "of interrupted saves; every uninterrupted save is also crash-probed at each of its mutation boundaries on a "
@@ -160,6 +161,8 @@ def gen_case(rng, tier, stream):
             ops.append(op)
             if not c["read_only"]:
                 saved.append((ci, slots[slot]))
+                if stream == "aborts":
+                    op["_id"] = slots[slot]
         elif r < 0.70:
             rid = rng.choice(known_ids) if rng.random() < 0.85 else "Op/20200227/unknown"
             ops.append(dict(op=rng.choice(["get", "get_meta", "get_meta"]), cas=ci, id=rid))
@@ -198,6 +201,79 @@ def gen_case(rng, tier, stream):
             ops.append(dict(op="get_meta", cas=ci, id=rid))
             ops.append(dict(op="get", cas=ci, id=rid))
     return dict(cassettes=cass, ops=ops, categories=cats, stream=stream)
+
+
+def add_aborts(rng, case):
+    """stream "aborts": abort_recording calls (public cassette API: "done with this recording, do not save it") spread
+    over a generated history - on recordings just created, already saved, hand-made (possibly under an id that is stored)
+    and FETCHED through get_recording (an open recording that carries a stored id), through read-only and writable
+    cassettes alike.  Aborting stores nothing and removes nothing."""
+    ops, out = case["ops"], []
+    ncas = len(case["cassettes"])
+    ro = [i for i, c in enumerate(case["cassettes"]) if c["read_only"]]
+    have, stored, nf = [], [], 0
+
+    def pick_cas():
+        return rng.choice(ro) if ro and rng.random() < 0.6 else rng.randrange(ncas)
+    for op in ops:
+        out.append(op)
+        if op["op"] in ("create", "mk"):
+            have.append(op["slot"])
+        if op["op"] == "save" and op.get("crash") is None and not case["cassettes"][op["cas"]]["read_only"]:
+            stored.append((op["cas"], op.get("_id")))
+        r = rng.random()
+        if r < 0.18 and have:
+            out.append(dict(op="abort", cas=pick_cas(), slot=rng.choice(have)))
+        elif r < 0.40 and any(i for _, i in stored):
+            wc, rid = rng.choice([x for x in stored if x[1]])
+            # fetched through a cassette on the same prefix as its writer (else there is nothing to fetch), aborted through
+            # the same or any other cassette
+            views = [i for i, c in enumerate(case["cassettes"]) if c["prefix"] == case["cassettes"][wc]["prefix"]]
+            g = rng.choice([v for v in views if v in ro] or views)
+            slot = "f%d" % nf
+            nf += 1
+            out.append(dict(op="get", cas=g, id=rid, keep=slot))
+            out.append(dict(op="abort", cas=g if rng.random() < 0.7 else pick_cas(), slot=slot))
+            have.append(slot)
+            if rng.random() < 0.5:
+                out.append(dict(op=rng.choice(["get", "get_meta", "list"]), cas=rng.choice(views), id=rid, cat=rid.split("/")[0]))
+        elif r < 0.48 and any(i for _, i in stored):
+            # a hand-made recording object under the id of a stored recording
+            slot = "f%d" % nf
+            nf += 1
+            out.append(dict(op="mk", slot=slot, id=rng.choice([x for x in stored if x[1]])[1], data=[], meta=[]))
+            out.append(dict(op="abort", cas=pick_cas(), slot=slot))
+    for op in out:
+        op.pop("_id", None)
+    return dict(case, ops=out, stream="aborts")
+
+
+def fixed_aborts(ro, tr, k):
+    """a writer stores two recordings under prefix p (one more under a neighbour prefix); then a cassette on p in the
+    read_only / transient combination (ro, tr) aborts: a recording fetched from itself, a hand-made recording under a stored
+    id, a recording fetched through the writer, a saved (closed) recording, a fresh never-saved one (for a writable
+    cassette: one it created itself) - the stored recordings are read back through a reader after each"""
+    p, p2 = [("a", "ab"), ("", "a"), ("a/b", "a"), ("ab", "a")][k % 4]
+    cass = [W(p, False), W(p2, False), W(p, tr, read_only=ro), W(p, False, read_only=True)]
+    id1, id2, id3 = ("Op/20200227/%032x" % 1, "OpX/20200228/%032x" % 2, "Op/20200227/%032x" % 3)
+    look = [dict(op="list", cas=3, cat="Op"), dict(op="get", cas=3, id=id1)]
+    ops = [dict(op="raw_put", key=key, body="foreign") for key in FOREIGN]
+    ops += [dict(op="create", cas=0, slot=0, cat="Op", day=0, data=[["k", pv.i(1)]], meta=[["m", pv.i(2)]]),
+            dict(op="save", cas=0, slot=0, ratio=None, crash=None),
+            dict(op="create", cas=0, slot=1, cat="OpX", day=1, data=[["k", pv.s("x")]], meta=[]),
+            dict(op="save", cas=0, slot=1, ratio=None, crash=None),
+            dict(op="create", cas=1, slot=2, cat="Op", day=0, data=[["k", pv.i(3)]], meta=[["m", pv.i(4)]]),
+            dict(op="save", cas=1, slot=2, ratio=None, crash=None),
+            dict(op="abort", cas=2, slot=0)] + look + [                     # saved = closed
+            dict(op="get", cas=2, id=id1, keep="f0"), dict(op="abort", cas=2, slot="f0")] + look + [
+            dict(op="mk", slot=5, id=id2, data=[], meta=[]), dict(op="abort", cas=2, slot=5),
+            dict(op="get_meta", cas=3, id=id2), dict(op="get", cas=0, id=id2, keep="f1"),
+            dict(op="abort", cas=2, slot="f1"), dict(op="get", cas=3, id=id2),
+            dict(op="get", cas=1, id=id3, keep="f2"), dict(op="abort", cas=2, slot="f2"),        # id of the neighbour prefix
+            dict(op="get", cas=1, id=id3),
+            dict(op="create", cas=2 if not ro else 0, slot=6, cat="Op", day=0, data=[["k", pv.i(5)]], meta=[]),
+            dict(op="abort", cas=2, slot=6), dict(op="abort", cas=2, slot="f0"), dict(op="save", cas=0, slot=6, ratio=None, crash=None)] + look
+    return dict(cassettes=cass, ops=ops, categories=CATS, stream="fixed-aborts")
 
 
 def W(prefix, transient, **kw):
@@ -324,6 +400,15 @@ def generate(rng, tier):
     rng_exit = __import__("random").Random(rng.getrandbits(64))
     for k in range(30 if tier == "quick" else 300):
         cases.append(gen_case(rng_exit, tier, "exits"))
+    # round 7: abort_recording joins the call vocabulary (own generator: the streams above stay what they were)
+    rng_abort = __import__("random").Random(rng.getrandbits(64))
+    k = 0
+    for ro in (True, False):
+        for tr in (True, False):
+            cases.append(fixed_aborts(ro, tr, k))
+            k += 1
+    for k in range(30 if tier == "quick" else 300):
+        cases.append(add_aborts(rng_abort, gen_case(rng_abort, tier, "aborts")))
     return cases
 
 
@@ -412,6 +497,10 @@ def to_gallina(case, obs):
                     t = "RCall %s (CSaveCrash %s %s %s)" % (gnat(op["cas"]), rec, samp, gnat(op["crash"]))
         elif kind == "get":
             t = "RCall %s (CGet %s)" % (gnat(op["cas"]), gstr(op["id"]))
+        elif kind == "abort":
+            # TapeCassette.abort_recording closes the recording object and does nothing else (tape_cassette.py:52-59): for
+            # the bucket model it is no step at all - same keys, empty log, returns normally
+            t = "RSkip"
         elif kind == "get_meta":
             t = "RCall %s (CGetMeta %s)" % (gnat(op["cas"]), gstr(op["id"]))
         elif kind == "list":
@@ -560,7 +649,7 @@ def search_harder(rng, bad_cases):
 
 MANIFEST = dict(
     design_ref='6/C15',
-    text="Coq theorems over all histories of calls (create, save incl. a crash after each single bucket mutation, get, get_metadata, list, close, context exit - on the implementation side normal and through an exception of the block's body, the same call in the model) on any number of S3 cassettes (all read_only/transient/prefix combinations) sharing one bucket: read-only cassettes never change bucket or log and refuse create/save; every mutated key lies under root+normalised prefix and nothing outside changes; closing a writable transient cassette removes every key it ever wrote and only keys under its full/ and metadata/ prefixes, leaving cassettes with path-independent prefixes (a vs ab) untouched, other closes are no-ops; after every single mutation of every save every metadata object has a decodable full object (discoverable => fetchable), incl. re-saves. Model tied to /repo on every run: random histories on real S3TapeCassettes over a fake bucket (paging client API) with foreign objects and crash residues, incl. transient cassettes holding several listing pages of recordings when closed and slash-shaped prefixes / categories, comparing outcome kind, mutation log and key set after every call; direct predicate on the implementation's own log/keys plus lookup+fetch through a fresh cassette at every crash point of every save.",
+    text="Coq theorems over all histories of calls (create, save incl. a crash after each single bucket mutation, get, get_metadata, list, close, context exit - on the implementation side normal and through an exception of the block's body, the same call in the model) on any number of S3 cassettes (all read_only/transient/prefix combinations) sharing one bucket: read-only cassettes never change bucket or log and refuse create/save; every mutated key lies under root+normalised prefix and nothing outside changes; closing a writable transient cassette removes every key it ever wrote and only keys under its full/ and metadata/ prefixes, leaving cassettes with path-independent prefixes (a vs ab) untouched, other closes are no-ops; after every single mutation of every save every metadata object has a decodable full object (discoverable => fetchable), incl. re-saves. Model tied to /repo on every run: random histories on real S3TapeCassettes over a fake bucket (paging client API) with foreign objects and crash residues, incl. transient cassettes holding several listing pages of recordings when closed and slash-shaped prefixes / categories, comparing outcome kind, mutation log and key set after every call; direct predicate on the implementation's own log/keys plus lookup+fetch through a fresh cassette at every crash point of every save. abort_recording (public cassette API outside the property's list of calls) is part of the histories: on recordings just created, saved, hand-made under a stored id and fetched through get_recording, through read-only and writable cassettes - for the model it is no bucket step (the base class only closes the recording object), the direct predicate applies the read-only / own-prefix clauses to it like to any call.",
     note='Trusted: Coq kernel + vm_compute; hand-written model; fake bucket behind the real S3BasicFacade (atomic per-object mutations, crash = refused mutation); zlib/json.loads/quoted-printable are section oracles with round-trip hypotheses (json.loads o json.dumps = id asked on well-formed trees only; all of them theorems for the concrete parser / simple codec / identity zlib: C15_discoverable_complete_concrete has no oracle premise); assertions enabled. Lookup itself is modelled only as a read (C10 owns it).',
     technique='Coq proof (induction over histories, bucket invariants) + history correspondence by vm_compute + crash-point probing',
 )
